@@ -272,7 +272,7 @@ static varintWidth varintExternalAdd_(uint8_t *p, varintWidth origEncoding,
     VARINT_ADD_OR_ABORT_OVERFLOW_(updatingVal, add, newVal);
 
     varintWidth newEncoding;
-    varintExternalUnsignedEncoding((uint64_t)updatingVal, newEncoding);
+    varintExternalUnsignedEncoding((uint64_t)newVal, newEncoding);
 
     /* If new encoding is larger than current encoding, we don't
      * want to overwrite memory beyond our current varint.
